@@ -563,7 +563,7 @@ def run_check(prop, tier, seed, cfg, rundir, t0, replay_file):
 
     for r in sres:
         for (c, m, i, v) in r.violations:
-            if v.split(" ")[0] != prop: continue   # another property's oracle; its own check reports it
+            if v.split(" ")[0] != prop and v.split(" ")[0] not in cfg.get("alias_props", []): continue   # another property's oracle; its own check reports it
             report_violation(r.name, c, m, v, "oracle")
         for (c, what, tail) in r.crashes:
             scfg = next(s for s in suites if s["name"] == r.name)
@@ -619,7 +619,7 @@ def run_check(prop, tier, seed, cfg, rundir, t0, replay_file):
                 for s in suites:
                     r2 = exec_suite(binp, rundir, s["name"], s, tier, seed, prop, extra_seed_offset=off)
                     for (c, m, i, v) in r2.violations:
-                        if v.split(" ")[0] != prop: continue
+                        if v.split(" ")[0] != prop and v.split(" ")[0] not in cfg.get("alias_props", []): continue
                         before = nviol
                         report_violation(r2.name, c, m, v, "oracle")
                         if nviol > before: found = True
